@@ -124,6 +124,8 @@ pub fn short_op(o: &Op) -> String {
 }
 
 struct Hit {
+    /// taken from the regression corpus (already minimal, recorded schedule): not shrunk again
+    from_corpus: bool,
     index: u64,
     case: Case,
     res: CaseResult,
@@ -146,6 +148,34 @@ pub fn run_check(spec: &CheckSpec, tier: Tier) -> i32 {
     let hits: Mutex<Vec<Hit>> = Mutex::new(vec![]);
     let harness_errors: Mutex<Vec<String>> = Mutex::new(vec![]);
     let total = Mutex::new(Acc::default());
+
+    // ---- regression corpus: the replay files of every defect repaired so far (replays/fixed/) are
+    // re-executed first, with their recorded schedules. On a tree that still contains the repairs
+    // none reproduces; a change that brings one of the defects back is reported at once, however
+    // deep the state it needs (defect 17 takes the seeded batch some 40 000 runs to reach).
+    let mut corpus_ran = 0u64;
+    if std::env::var_os("RAINSIM_NO_CORPUS").is_none() {
+        let dir = verif_root().join("replays").join("fixed");
+        let mut files: Vec<std::path::PathBuf> = std::fs::read_dir(&dir).map(|d| d.filter_map(|e| e.ok().map(|e| e.path())).filter(|p| p.extension().map(|x| x == "json").unwrap_or(false)).collect()).unwrap_or_default();
+        files.sort();
+        for f in files {
+            let Ok(text) = std::fs::read_to_string(&f) else { continue };
+            let Ok(rf) = serde_json::from_str::<ReplayFile>(&text) else { continue };
+            // child-process engines (C15) and enumeration engines are replayed for their own check only
+            if rf.property != spec.prop && !matches!(rf.case.engine, crate::exec::Engine::Hist | crate::exec::Engine::Conc) {
+                continue;
+            }
+            let res = crate::checks::exec_case(&rf.case);
+            corpus_ran += 1;
+            let hit = res.findings.iter().find(|x| x.concerns(spec.prop) && known.matches(spec.prop, x).is_none() && !x.concerns("HARNESS")).cloned();
+            if let Some(finding) = hit {
+                println!("regression corpus: {} reproduces a finding for {}", f.display(), spec.prop);
+                hits.lock().unwrap().push(Hit { from_corpus: true, index: 0, case: rf.case.clone(), res, finding });
+                stop.store(true, Ordering::Relaxed);
+                break;
+            }
+        }
+    }
 
     // enumeration engines running in child processes (C15) stop evaluating further fault points
     // of a base run once the batch's wall-clock budget plus a third is used up
@@ -226,7 +256,7 @@ pub fn run_check(spec: &CheckSpec, tier: Tier) -> i32 {
                         }
                     }
                     if let Some(f) = hit {
-                        hits.lock().unwrap().push(Hit { index: i, case, res, finding: f });
+                        hits.lock().unwrap().push(Hit { from_corpus: false, index: i, case, res, finding: f });
                         stop.store(true, Ordering::Relaxed);
                     }
                 }
@@ -236,6 +266,7 @@ pub fn run_check(spec: &CheckSpec, tier: Tier) -> i32 {
     });
 
     let mut acc = total.into_inner().unwrap();
+    acc.add("regression_corpus_cases_replayed", corpus_ran);
     let errs = harness_errors.into_inner().unwrap();
     if !errs.is_empty() {
         for e in errs.iter().take(5) {
@@ -252,7 +283,7 @@ pub fn run_check(spec: &CheckSpec, tier: Tier) -> i32 {
         violations = 1;
         println!("violation candidate in run {} (run_seed {:016x}): [{}] {}", h.index, h.case.run_seed, h.finding.signature, h.finding.detail);
         let mut h = h;
-        if let Some(narrow) = &spec.narrow {
+        if let (Some(narrow), false) = (&spec.narrow, h.from_corpus) {
             if let Some(nc) = narrow(&h.case, &h.finding, &h.res) {
                 let r = (spec.exec)(&nc);
                 if let Some(g) = same_violation(&r, spec.prop, &h.finding) {
@@ -264,7 +295,7 @@ pub fn run_check(spec: &CheckSpec, tier: Tier) -> i32 {
             }
         }
         let shrinkable = matches!(h.case.engine, crate::exec::Engine::Hist | crate::exec::Engine::Conc);
-        let (case, res, finding, note) = if spec.shrink_plan && shrinkable { shrink(spec, &h.case, &h.res, &h.finding) } else { (h.case.clone(), h.res.clone(), h.finding.clone(), None) };
+        let (case, res, finding, note) = if spec.shrink_plan && shrinkable && !h.from_corpus { shrink(spec, &h.case, &h.res, &h.finding) } else { (h.case.clone(), h.res.clone(), h.finding.clone(), None) };
         // freeze the schedule into the replay file
         let mut rcase = case.clone();
         rcase.schedule = Some(res.schedule.clone());
